@@ -55,19 +55,20 @@ class Note:
             texts = [t for t in texts if t not in ('/', '\\')]    # stems on rests are discarded by design (grammar comment)
         return sorted(set(texts))
 
-    def ekern(self, keep=None, decs=None):
-        """Extended export; keep(category name) -> bool filters parts; decs overrides the decoration set (chords)."""
+    def ekern(self, keep=None, decs=None, ts=TS, dsep=DS):
+        """Extended export; keep(category name) -> bool filters parts; decs overrides the decoration set (chords).
+        With ts = dsep = '' this is the plain encoding (parts concatenated, never altered)."""
         keep = keep or (lambda c: True)
         pd = [t for t, c in self.pd_parts() if keep(c)]
         ds = (self.dec_set() if decs is None else decs) if keep('DECORATION') else []
-        s = TS.join(pd)
+        s = ts.join(pd)
         if ds:
-            s += DS + DS.join(ds)
+            s += dsep + dsep.join(ds)
         return s
 
-    def basic(self, keep=None):
+    def basic(self, keep=None, ts=TS):
         keep = keep or (lambda c: True)
-        return TS.join(t for t, c in self.pd_parts() if keep(c))
+        return ts.join(t for t, c in self.pd_parts() if keep(c))
 
 
 def Rest(dur='4', dots=0, decs=(), mark=''):
@@ -159,13 +160,15 @@ def export_cell(cell, enc='ekern', keep=None, to_agnostic=None):
     ext = enc in ('ekern', 'bekern', 'aekern')
     basic = enc in ('bkern', 'bekern')
 
+    ts, dsep = (TS, DS) if ext else ('', '')
+
     def strip(s):
-        return s if ext else s.replace(TS, '').replace(DS, '')
+        return s
 
     def one(n, decs=None):
         if to_agnostic is not None and not n.is_rest:
-            return _agnostic_note(n, keep, decs, basic, to_agnostic)
-        return n.basic(keep) if basic else n.ekern(keep, decs)
+            return _agnostic_note(n, keep, decs, basic, to_agnostic, ts, dsep)
+        return n.basic(keep, ts) if basic else n.ekern(keep, decs, ts, dsep)
 
     if isinstance(cell, Note):
         s = one(cell)
@@ -189,18 +192,18 @@ def export_cell(cell, enc='ekern', keep=None, to_agnostic=None):
     return cell.text
 
 
-def _agnostic_note(n, keep, decs, basic, to_agnostic):
+def _agnostic_note(n, keep, decs, basic, to_agnostic, ts=TS, dsep=DS):
     """Agnostic encodings fuse pitch+accidental into one converted part placed after the durations."""
     durs = [t for t, c in n.pd_parts() if c == 'DURATION' and keep(c)]
     pa = ''.join(t for t, c in n.pd_parts() if c in ('PITCH', 'ALTERATION') and keep(c))
     parts = list(durs)
     if pa:
         parts.append(to_agnostic(pa))
-    s = TS.join(parts)
+    s = ts.join(parts)
     if not basic and keep('DECORATION'):
         ds = n.dec_set() if decs is None else decs
         if ds:
-            s += DS + DS.join(ds)
+            s += dsep + dsep.join(ds)
     return s
 
 
